@@ -205,6 +205,49 @@ add("C16", "exploration",
     "vector gauge), so cross-run identity is decided on gauge-invariant "
     "functionals and consumer results", "DESIGN.md 3/C16")
 
+add("C13", "exploration",
+    "exact rational-arithmetic oracle observed at the step-count hooks (whole "
+    "lattice) and end to end (closed-form states aligned with labels)",
+    "For dt in {0.1,0.05,0.01,0.2,0.25,0.3,0.7,1e-3,1/3,random} x start in "
+    "{0,0.1,-0.3,1.7} x m=0..1000 with the end time written as a decimal "
+    "literal, a float sum and off-grid values, the number of steps observed "
+    "at Tempo/MeanFieldTempo._get_num_step, PtTempo and tcut->dkmax is "
+    "compared with exact Fraction arithmetic; end to end, every API returns "
+    "states whose labels are start+k dt to 4 ulp, sorted, and whose content "
+    "equals the closed-form state of the labelled time (record_all True and "
+    "False), incl. PtTebd.",
+    "points whose exact quotient lies between 1e-12 and 1e-6 of an integer "
+    "are not judged; hooks read private attributes", "DESIGN.md 3/C13")
+add("C17", "fault_enumeration",
+    "crash-point enumeration with killed writer processes and a classifying "
+    "reader process",
+    "A dry run records the file-operation sequence of export() and of a "
+    "file-backed PT-TEMPO run; at every operation boundary (thorough: every "
+    "executed source line) a writer process dies by SIGKILL, _exit, SIGTERM, "
+    "exception, SIGINT or sys.exit; a reader process imports the file as "
+    "'file' and 'simple' with warnings recorded, reads every tensor and runs "
+    "a consumer; a file that opens without the corruption warning although "
+    "it is incomplete is a violation; clean files must open unwarned and "
+    "complete; mode matrix {write, overwrite, read} x {existing, missing} "
+    "with content hashes; remove() entitlement.",
+    "crash points are Python-level boundaries; tmpfs (no power-loss model)",
+    "DESIGN.md 3/C17")
+add("C19", "fault_enumeration",
+    "thread/timer census, output-stream monitor and exit watchdog in fresh "
+    "interpreters under fault injection; sys.monitoring line pre-emption of "
+    "the progress timer callback",
+    "Every timer the library creates is registered by a Timer subclass "
+    "(virtual time); after each call returned or raised no timer may be "
+    "armed, no thread alive after a grace period and no byte written; "
+    "faults are injected at every call index of the user callables of a "
+    "clean run, as missing caps and wrong shapes at every step, for 10 APIs "
+    "x 4 progress types; the timer callback and the caller are held at "
+    "every source line of ProgressBar.update/_print_status/exit while the "
+    "other side finishes or updates; a process-exit watchdog runs selected "
+    "scenarios without clean-up.",
+    "line granularity, context bound 1; timer intervals scaled 1 s -> 20 ms",
+    "DESIGN.md 3/C19")
+
 NOT_APPLICABLE = []
 
 
